@@ -71,7 +71,7 @@ def post_plan(seed, tier, jobs, results):
                 {
                     "world": worlds[(ci // chunk + 2) % nworlds],
                     "fn": "userland_dispatch",
-                    "payload": {"seed": "%s/c16u/%d" % (seed, ci), "reps": 6},
+                    "payload": {"seed": "%s/c16u/%d" % (seed, ci), "reps": 6, "containers": 40 if tier == "quick" else 160, "subsets": 60 if tier == "quick" else 400},
                     "timeout": 900,
                 }
             )
